@@ -49,8 +49,23 @@ def canon(o: Any, _seen: Optional[set] = None) -> Any:  # type: ignore[type-arg]
     return ("obj", type(o).__name__, repr(o)[:80])
 
 
+def aux_contents(db: Any) -> Dict[str, bytes]:
+    """the auxiliary files of a database by base name; read from the start, and the read position is left where it was
+    (what a later write finds must not depend on having been looked at)"""
+    out: Dict[str, bytes] = {}
+    for k, f in db.auxiliary_files.items():
+        try:
+            pos = f.tell()
+            f.seek(0)
+            out[os.path.basename(str(k))] = f.read()
+            f.seek(pos)
+        except Exception as e:  # noqa: BLE001
+            out[os.path.basename(str(k))] = f"<unreadable: {type(e).__name__}>".encode()
+    return out
+
+
 def digest(db: Any) -> str:
-    return hashlib.sha1(repr([(k, canon(r)) for k, r in roots(db)]).encode()).hexdigest()[:16]
+    return hashlib.sha1(repr([(k, canon(r)) for k, r in roots(db)] + sorted(aux_contents(db).items())).encode()).hexdigest()[:16]
 
 
 def diff(a: Any, b: Any, path: str = "", out: Optional[List[Dict[str, Any]]] = None, limit: int = 40,
@@ -99,6 +114,8 @@ def diff_db(a: Any, b: Any, limit: int = 40) -> List[Dict[str, Any]]:
     for k in ra:
         if k in rb:
             diff(ra[k], rb[k], k, out, limit)
+    xa, xb = aux_contents(a), aux_contents(b)
+    diff(xa, xb, "auxiliary_files", out, limit, ("Database", "auxiliary_files"))
     return out
 
 
@@ -269,6 +286,11 @@ def odx_members(pdx: bytes) -> Dict[str, bytes]:
 def all_members(pdx: bytes) -> Dict[str, bytes]:
     with zipfile.ZipFile(io.BytesIO(pdx)) as z:
         return {n: z.read(n) for n in z.namelist()}
+
+
+def content_members(pdx: bytes) -> Dict[str, bytes]:
+    """every member but the catalogue (which carries creation dates): the ODX documents and the auxiliary files"""
+    return {n: b for n, b in all_members(pdx).items() if n != "index.xml"}
 
 
 def make_archive(path: str, members: List[Tuple[str, bytes]]) -> None:
